@@ -191,7 +191,10 @@ def model_join(rng):
         s += ' USING ' + ', '.join(opts)
     elif r.random() < 0.4:
         opts = r.sample(['a = 1', "m.b = 'x'", 'Mode = 2', 'partition_size = 2', 't.c = 3', 'm.partition_size = 3', "m.prompt.template = 'x'", 'x.y.z = 1', 'm.a.b.c = 2',
-                         '`m`.bq = 3', 'm.`d.e` = 4', 'M.Partition_Size = 2', 'engine.args.k = 5'], r.randint(1, 2))
+                         '`m`.bq = 3', 'm.`d.e` = 4', 'M.Partition_Size = 2', 'engine.args.k = 5',
+                         # a partition size that is no positive integer: accepted or rejected, never an internal error
+                         "partition_size = '1000'", 'partition_size = big', 'partition_size = 0', 'partition_size = -1', 'partition_size = 2.5',
+                         'partition_size = null', 'partition_size = true', 'm.partition_size = [1, 2]', "partition_size = ''"], r.randint(1, 2))
         s += ' USING ' + ', '.join(opts)
     return s, {'kinds': kinds, 'model': model, 'second_table': second}
 
@@ -222,7 +225,8 @@ def ts_join(rng):
     frm = f'mindsdb.{model} AS m JOIN {tbl}' if left else f'{tbl} JOIN mindsdb.{model} AS m'
     s = f'SELECT {r.choice(["*", "m.ts, m.yhat", "t.ts, m.yhat AS f"])} FROM {frm}'
     if extra == 'foreign':
-        conds.append('t.other = 1')
+        # a column that is neither the order column nor a partition column - also one whose name is PART of such a name
+        conds.append(f"t.{r.choice(['other', 'other', 't', 's', 'ts2', 'gg', 'G1', 'v'])} = 1")
     if conds:
         # the same conjunction written flat, or with a parenthesised group on the right / on the left
         if len(conds) >= 2 and pf and r.random() < 0.5:
